@@ -26,7 +26,15 @@ RULE = ('a case = (kind chunk|rdb|token, retry configuration (total, connect, re
         'HISTORY of get_chunk calls on ONE S3ChunkStore object (each call: bucket out of three, state of that bucket '
         'at that moment full|empty|missing, stored chunk, fault scripts for the object and the listing requests): all '
         'histories up to a length bound over an 11-symbol call alphabet x 2 buckets plus random longer histories over '
-        '3 buckets with changing bucket states, random budgets and all fault symbols; compared per call. Non-trivial = the '
+        '3 buckets with changing bucket states, random budgets and all fault symbols; compared per call. tokhist cases = a '
+        'HISTORY of uses of token strings in ONE process under a scripted clock (katdal.chunkstore_s3.time replaced by a '
+        'proxy whose time() is set per use; nothing sleeps): each use = (entry decode_jwt | S3ChunkStore(url, token) + '
+        'get_chunk | TelstateDataSource.from_url(...rdb?token=) | get_chunk on a store object constructed earlier in the '
+        'history, token out of a table of 9 hand-made JWTs (expiry T0+100 s / T0+200 s / none / already expired / given as '
+        'a string / out of scope / short signature / no prefix claim), clock T0 + offset in ms incl. the expiry second '
+        'itself, fractions just after it and clocks set back, URL https-exempt loopback or plain http://localhost, fault '
+        'script); all histories of 2 uses over 2 tokens x 3 entries (+ call) x 6 clock pairs plus random histories of 3-8 '
+        'uses; compared per use. Non-trivial = the '
         'script contains at least one fault or the token is rejected; distinct by the whole canonical case.')
 ASSUMPTIONS = [
     'urllib3 2.x / requests 2.x behaviour as installed (Retry.increment/is_exhausted, urlopen status retries, '
@@ -34,6 +42,8 @@ ASSUMPTIONS = [
     'backoff sleeping is not exercised (backoff_factor=0) except the first, zero-length back-off of the default config',
     'connect-phase failures (refused / connect timeout) are outside the fault alphabet; PUT requests and is_complete '
     'use the same request loop and are not driven separately',
+    'token histories: the clock is the one katdal.chunkstore_s3 reads through its module global `time` (the translator '
+    'demands `time.time() > expiration_time`); exp claims are whole seconds, the clock has millisecond resolution',
     'a stall is silence longer than the 0.5 s read timeout; disagreements are re-run with a 2.5 s timeout before '
     'they are reported (guards against scheduling noise on a loaded machine)',
 ]
@@ -154,6 +164,8 @@ def model_case(case):
                      [[o['bucket'], o['state'], pls[o['payload']]['segs'],
                        len(LISTING_FULL) if o['state'] == 0 else len(LISTING_EMPTY), o['fs'], o['fsb']]
                       for o in case['ops']]]]
+    if case['kind'] == 'tokhist':
+        return hist_model_case(case)
     t = case['token']
     p = pls[case['payload']]
     codes = lambda s: [ord(c) for c in s]
@@ -363,6 +375,8 @@ def compare(ctx, case, mout, read_timeout=0.5, confirm=True):
     kind = case['kind']
     if kind == 'session':
         return compare_session(ctx, case, mout, read_timeout, confirm)
+    if kind == 'tokhist':
+        return compare_hist(ctx, case, mout, read_timeout, confirm)
     case['_consumed'] = mout[1]
     if kind == 'chunk':
         case['_consumed_b'] = mout[2]
@@ -686,6 +700,306 @@ def token_cases(ctx):
 
 
 # ---------------------------------------------------------------------------------------------------
+# token histories: uses of token strings in one process under a scripted clock
+
+T0 = 2000000000          # base of the scripted clock (s); the real clock is never consulted by the code under test
+ES256 = {"alg": "ES256", "typ": "JWT"}
+REASONS = (("does not have exactly two dots", {1}), ("Could not decode token", {2, 4}), ("Encoded signature has", {3}),
+           ("Expiration time must be", {5}), ("Token expired at", {6}), ("no 'prefix' claim", {7}),
+           ("only be used with https", {8}), ("does not grant access", {9}))
+
+
+class _Clock:
+    """Stand-in for the `time` module inside katdal.chunkstore_s3: time() is what the history says."""
+
+    def __init__(self, real):
+        self._real = real
+        self.now = None
+
+    def time(self):
+        return self._real.time() if self.now is None else self.now
+
+    def __getattr__(self, name):
+        return getattr(self._real, name)
+
+
+def hist_tokens():
+    """The token table: (label, header, claims with exp relative to T0 (int offset | None | str), signature length)."""
+    return [dict(label='exp100', claims={"prefix": ["bkt"], "exp": T0 + 100}),
+            dict(label='exp200', claims={"prefix": ["bkt"], "exp": T0 + 200, "iss": "kat"}),
+            dict(label='noexp', claims={"prefix": ["bkt"]}),
+            dict(label='expired', claims={"prefix": ["bkt"], "exp": T0 - 50}),
+            dict(label='exp100str', claims={"prefix": ["bkt"], "exp": str(T0 + 100)}),
+            dict(label='exp100other', claims={"prefix": ["other"], "exp": T0 + 100}),
+            dict(label='exp100short', claims={"prefix": ["bkt"], "exp": T0 + 100}, siglen=85),
+            dict(label='exp100noprefix', claims={"exp": T0 + 100}),
+            dict(label='exp150two', claims={"prefix": ["zz", "bk"], "exp": T0 + 150})]
+
+
+def hist_token_str(t):
+    return make_token(ES256, t['claims'], 'B' * (t.get('siglen', 86) - 1) + 'A')
+
+
+def hist_token_feats(t):
+    c = t['claims']
+    exp = c.get('exp')
+    return dict(nseg=3, header_ok=True, alg='ES256', siglen=t.get('siglen', 86), claims_ok=True,
+                exp=None if exp is None else int(exp), has_prefix='prefix' in c, prefixes=list(c.get('prefix', [])))
+
+
+def hist_path(u, pls):
+    if u['entry'] == 'rdb':
+        return 'bkt/x.rdb'
+    a = pls[u['payload']]['array']
+    return 'bkt/arr/' + '_'.join('%05d' % 0 for _ in a.shape) + '.npy'
+
+
+def hist_model_case(case):
+    """Times go over the wire in ms (exp claims * 1000) so that fractions of a second after the expiry are exact."""
+    _, pls = env()
+    codes = lambda s: [ord(c) for c in s]
+    toks = []
+    for t in case['tokens']:
+        f = hist_token_feats(t)
+        toks.append([f['nseg'], 1, codes(f['alg']), f['siglen'], 1, [] if f['exp'] is None else [f['exp'] * 1000],
+                     int(f['has_prefix']), [codes(x) for x in f['prefixes']]])
+    uses = []
+    for u in case['uses']:
+        e = {'decode': 0, 'open': 1, 'rdb': 1, 'call': 2}[u['entry']]
+        proc = [1, len(rdb_bytes())] if u['entry'] == 'rdb' else [0, pls[u['payload']]['segs']]
+        sch, host = ('http', '127.0.0.1') if u.get('loopback', True) else ('http', 'localhost')
+        uses.append([e, u.get('store', 0), u['tok'], T0 * 1000 + u['ms'], codes(sch), codes(host),
+                     codes(hist_path(u, pls)), proc, u['fs']])
+    return [93, [wire_cfg(case['cfg']), toks, uses]]
+
+
+def impl_hist(case, mout, read_timeout):
+    """All uses of the history in this process, the clock of katdal.chunkstore_s3 set before each.
+    Per use: (class, request kinds, log, reason codes | None, token string expected in the Authorization header)."""
+    import katdal.chunkstore_s3 as s3mod
+    from katdal.chunkstore_s3 import S3ChunkStore
+    from katdal.datasources import DataSourceNotFound, TelstateDataSource
+    fake, pls = env()
+    fake.max_wait = read_timeout + 2.0
+    strs = [hist_token_str(t) for t in case['tokens']]
+    real = s3mod.time
+    if isinstance(real, _Clock):
+        real = real._real
+    clock = _Clock(real)
+    out = []
+    stores = []         # aligned with the model's list of store objects: (store | None, token id)
+    s3mod.time = clock
+    try:
+        for i, u in enumerate(case['uses']):
+            if i >= len(mout):
+                break
+            clock.now = T0 + u['ms'] / 1000.0
+            tokstr = strs[u['tok']]
+            base = fake.url if u.get('loopback', True) else 'http://localhost:%d' % fake.port
+            p = pls[u.get('payload', 0)]
+            a = p['array']
+            slices = tuple(slice(0, n) for n in a.shape)
+            exc = None
+            made = None
+            fake.arm([action(s) for s in u['fs']], [], 'full', rdb_bytes() if u['entry'] == 'rdb' else p['data'])
+            try:
+                if u['entry'] == 'decode':
+                    claims = s3mod.decode_jwt(tokstr)
+                    cls = OK if isinstance(claims, dict) and claims == case['tokens'][u['tok']]['claims'] else 7
+                elif u['entry'] == 'rdb':
+                    src = TelstateDataSource.from_url(
+                        base + '/bkt/x.rdb?capture_block_id=1234567890&stream_name=sdp_l0&token=' + tokstr,
+                        chunk_store=None, timeout=(2, read_timeout), retries=retries_of(case['cfg']))
+                    good = src.telstate['int_time'] == 2.0 and len(src.timestamps) == 2
+                    cls = OK if good else 7
+                else:
+                    if u['entry'] == 'open':
+                        store = made = S3ChunkStore(base, timeout=(2, read_timeout), retries=retries_of(case['cfg']),
+                                                    token=tokstr)
+                    else:
+                        store, tid = stores[u['store']]
+                        tokstr = strs[tid]
+                    c = store.get_chunk('bkt/arr', slices, a.dtype)
+                    ok = isinstance(c, np.ndarray) and c.dtype == a.dtype and c.shape == a.shape and np.array_equal(c, a)
+                    cls = OK if ok else 7
+            except DataSourceNotFound as e:
+                exc = e.__cause__ if e.__cause__ is not None else e
+                cls = classify_exc(exc) if e.__cause__ is not None else RAW
+            except Exception as e:
+                exc = e
+                cls = classify_exc(e)
+            log = fake.requests()
+            reason = None
+            if exc is not None:
+                for text, codes_ in REASONS:
+                    if text in str(exc):
+                        reason = sorted(codes_)
+            # keep the list of store objects aligned with the model's
+            if u['entry'] in ('open', 'rdb') and mout[i][3] > len(stores):
+                stores.append((made, u['tok']))
+            out.append((cls, ''.join(k[0] for k in log), log, reason, tokstr, made is not None))
+    finally:
+        clock.now = None
+        s3mod.time = real
+    return out
+
+
+def hist_signature(case, k, mout, what, impl_cls, want_cls):
+    u = case['uses'][k]
+    tid = u['tok']
+    label = case['tokens'][tid]['label'] if u['entry'] != 'call' else 'store-token'
+    before = [j for j in range(k) if case['uses'][j]['tok'] == tid and case['uses'][j]['entry'] != 'call']
+    seen = sorted({'accepted' if mout[j][4][0][0] not in (INVALIDTOK, AUTH) else 'rejected' for j in before})
+    return 'kind=tokhist;entry=%s;token=%s;expired_now=%d;same_token_before=%s;clock=%s;faults=%s;what=%s;impl=%s;want=%s' % (
+        u['entry'], label, int(mout[k][5]), '+'.join(seen) or 'never',
+        'set_back' if k and u['ms'] < case['uses'][k - 1]['ms'] else 'forward',
+        '+'.join(sorted({sym_kind(s) for s in u['fs']})) or 'none', what,
+        CLASS_NAMES.get(impl_cls, impl_cls), CLASS_NAMES.get(want_cls, want_cls))
+
+
+def compare_hist(ctx, case, mout, read_timeout=0.5, confirm=True):
+    """Per use: verdict and number of requests vs the stateless spec (property), vs the model (tie); the Authorization
+    header of every request that was sent; the reason given for a rejection vs the model's decision (tie).  Only the
+    first disagreeing use is reported; the replay keeps the history up to it."""
+    res = impl_hist(case, mout, read_timeout)
+    stale = bool(_state.get('stale'))
+    first = {}
+    for k, (icls, ireq, log, reason, tokstr, made) in enumerate(res):
+        (mres, mn), mdec, _, mstores, (sres, sn), expired = mout[k]
+        if mdec == 99 and case['uses'][k]['entry'] == 'call':
+            ctx.count('tokhist_call_without_store')
+            break
+        mcls, scls = mres[0], sres[0]
+        rejected = scls in (INVALIDTOK, AUTH) and sn == 0
+        nreq = len(log)
+        if rejected:
+            if icls in (OK, 7) or nreq:
+                first.setdefault('property', (k, 'bad_token_not_rejected_before_request', icls, scls))
+            elif icls not in (INVALIDTOK, AUTH):
+                first.setdefault('property', (k, 'result', icls, scls))
+        else:
+            if icls != scls:
+                first.setdefault('property', (k, 'result', icls, scls))
+            elif ireq != 'O' * sn:
+                first.setdefault('property', (k, 'requests', icls, scls))
+            elif any(e[3] != 'Bearer ' + tokstr for e in log):
+                first.setdefault('property', (k, 'authorization_header', icls, scls))
+        if not stale:
+            if icls != mcls or ireq != 'O' * mn:
+                first.setdefault('tie', (k, 'result' if icls != mcls else 'requests', icls, mcls))
+            elif reason is not None and mdec not in reason and mdec != 99:
+                first.setdefault('tie', (k, 'reject_reason', icls, mcls))
+            if (mres, mn) != (sres, sn) and not first:
+                first.setdefault('property', (k, 'model_vs_spec', mcls, scls))
+        if 'property' in first:
+            break
+    if first and confirm and read_timeout < 2.0 and any(u['fs'] for u in case['uses']):
+        return compare_hist(ctx, case, mout, read_timeout=2.5, confirm=False)
+    ctx.traces_validated += len(res)
+    if first and len({d['signature'] for d in ctx.disagreements}) >= 30:
+        first = {}
+        ctx.count('disagreements_beyond_30_signatures')
+    for kind, (at, what, a, b) in sorted(first.items()):
+        short = dict(case, uses=case['uses'][:at + 1])
+        icls, ireq, _, reason, _, _ = res[at]
+        ctx.disagree(hist_signature(case, at, mout, what, a, b), short,
+                     dict(use=at, result=CLASS_NAMES.get(icls, icls), requests=ireq, reject_reason=reason,
+                          earlier=[CLASS_NAMES.get(r[0], r[0]) for r in res[:at]]),
+                     dict(model=mout[:at + 1]),
+                     'use %d of the history of token uses in one process (clock T0%+.3f s): implementation %s differs '
+                     'from %s (%s)' % (at, case['uses'][at]['ms'] / 1000.0, what,
+                                       'spec' if kind == 'property' else 'model', CLASS_NAMES.get(b, b)),
+                     spec=[m[4] for m in mout[:at + 1]], kind=kind)
+    return not first
+
+
+def hist_cases(ctx):
+    rng = ctx.rng
+    _, pls = env()
+    thorough = ctx.tier == 'thorough'
+    toks = hist_tokens()
+    G = list(GLITCHES)
+    cfg1 = [10, 1, 1, 1, G]
+    cases = []
+
+    def accepted(tid, ms, loopback=True):
+        """Would a store be constructed?  (only used to aim `call` uses at a store object that exists)"""
+        t = toks[tid]
+        exp = t['claims'].get('exp')
+        return (loopback and t.get('siglen', 86) == 86 and 'prefix' in t['claims']
+                and (exp is None or T0 * 1000 + ms <= int(exp) * 1000))
+
+    def finish(uses):
+        """Turn `call_of` (index of an earlier open use) into the index of its store object; drop dangling calls."""
+        idx, out = {}, []
+        n = 0
+        for j, u in enumerate(uses):
+            u = dict(u)
+            if u['entry'] in ('open', 'rdb'):
+                if accepted(u['tok'], u['ms'], u.get('loopback', True)):
+                    if u['entry'] == 'open':
+                        idx[j] = n
+                    n += 1
+            elif u['entry'] == 'call':
+                j0 = u.pop('call_of')
+                if j0 not in idx:
+                    continue
+                u['store'] = idx[j0]
+                u['tok'] = uses[j0]['tok']
+            out.append(u)
+        return out
+
+    # (a) all histories of 2 uses over 2 tokens x {decode, open, rdb} (+ a call on the store of the first use) and
+    #     clock pairs around the expiry second of the first token (T0+100 s), incl. a clock set back
+    pairs = [(0, 100000), (0, 100001), (99500, 100250), (100000, 101000), (0, 250000), (101000, 0)]
+    if thorough:
+        pairs += [(100001, 100001), (50000, 50000), (0, 200001), (150000, 250000)]
+    for ti, tj in itertools.product((0, 1), repeat=2):
+        for e1, e2 in itertools.product(('decode', 'open', 'rdb'), ('decode', 'open', 'rdb', 'call')):
+            if e2 == 'call' and (e1 != 'open' or ti != tj):
+                continue
+            for (m1, m2) in pairs:
+                pi = rng.randrange(len(pls))
+                uses = [dict(entry=e1, tok=ti, ms=m1, payload=pi, fs=[]),
+                        dict(entry=e2, tok=tj, ms=m2, payload=pi, fs=[], call_of=0) if e2 == 'call'
+                        else dict(entry=e2, tok=tj, ms=m2, payload=pi, fs=[])]
+                cases.append(dict(kind='tokhist', cfg=list(cfg1), tokens=toks, uses=finish(uses)))
+    # (b) random histories of 3-8 uses over the whole table
+    marks = [0, 50000, 99999, 100000, 100001, 100250, 101000, 149000, 150000, 150500, 199000, 200000, 200001, 260000,
+             -50000, -50001, -49000]
+    for _ in range(ctx.scale(110, 2500)):
+        n = rng.randint(3, 8)
+        ms = rng.choice((0, 0, 50000, 99000))
+        uses = []
+        focus = rng.sample(range(len(toks)), rng.choice((1, 2, 2, 3)))
+        for j in range(n):
+            r = rng.random()
+            if r < 0.55:
+                ms = max(ms, rng.choice(marks)) if rng.random() < 0.7 else ms + rng.choice((1, 250, 1000, 60000))
+            elif r < 0.70:
+                ms = rng.choice(marks)                        # the clock may be set back
+            tid = rng.choice(focus) if rng.random() < 0.85 else rng.randrange(len(toks))
+            pi = rng.randrange(len(pls))
+            opens = [k for k, x in enumerate(uses) if x['entry'] == 'open']
+            e = rng.choice(('decode', 'open', 'open', 'rdb', 'call', 'call') if opens else ('decode', 'open', 'open', 'rdb'))
+            fs = []
+            if e != 'decode' and rng.random() < 0.25:
+                fs = [rng.choice(([0, 503], [1, rng.choice(offsets(pls[pi])[:3])], [4, 0], [0, 401], [0, 403], [0, 400]))]
+            u = dict(entry=e, tok=tid, ms=ms, payload=pi, fs=fs)
+            if e == 'rdb':
+                u['fs'] = [s for s in fs if s[0] != 1]       # cut positions are those of the chunk payloads
+            if e == 'call':
+                u['call_of'] = rng.choice(opens)
+                u['payload'] = uses[u['call_of']]['payload'] if rng.random() < 0.5 else pi
+            if e in ('open', 'rdb') and rng.random() < 0.06:
+                u['loopback'] = False
+            uses.append(u)
+        cfg = list(cfg1) if rng.random() < 0.7 else [10, 1, rng.choice((0, 1, 2)), rng.choice((0, 1, 2)), G]
+        cases.append(dict(kind='tokhist', cfg=cfg, tokens=toks, uses=finish(uses)))
+    return cases
+
+
+# ---------------------------------------------------------------------------------------------------
 
 def canon(case):
     return json.dumps({k: v for k, v in case.items() if k not in ('token_str', 'url') and not k.startswith('_')},
@@ -712,6 +1026,26 @@ def run_cases(ctx, cases):
                     ctx.count('session_repeated_404_in_unverified_bucket')
                 if mouts[i][k][5] and o['fs'][-1:] == [[0, 404]]:
                     ctx.count('session_404_in_cached_bucket')
+            continue
+        if c['kind'] == 'tokhist':
+            ctx.note_case(canon(c), nontrivial=True, sample=dict(c, tokens=[t['label'] for t in c['tokens']]) if i % 97 == 0 else None)
+            ctx.count('kind=tokhist')
+            ctx.count('tokhist_uses', len(c['uses']))
+            seen_ok = set()
+            for k, u in enumerate(c['uses']):
+                ctx.count('tokhist_entry=' + u['entry'])
+                acc = mouts[i][k][4][0][0] not in (INVALIDTOK, AUTH)
+                ctx.count('tokhist_verdict=' + ('accepted' if acc else 'rejected'))
+                if mouts[i][k][5]:
+                    ctx.count('tokhist_expired_now')
+                    if u['tok'] in seen_ok:
+                        ctx.count('tokhist_expired_after_same_token_was_accepted')
+                    if u['entry'] == 'call':
+                        ctx.count('tokhist_expired_on_live_store')
+                if acc and u['entry'] != 'call':
+                    seen_ok.add(u['tok'])
+                if k and u['ms'] < c['uses'][k - 1]['ms']:
+                    ctx.count('tokhist_clock_set_back')
             continue
         nontrivial = bool(c.get('fs')) or c['kind'] == 'token'
         ctx.note_case(canon(c), nontrivial=nontrivial,
@@ -754,6 +1088,7 @@ def run(ctx):
             if fn.endswith('.json'):
                 run_cases(ctx, [json.load(open(os.path.join(cdir, fn)))])
     run_cases(ctx, token_cases(ctx))
+    run_cases(ctx, hist_cases(ctx))
     run_cases(ctx, session_cases(ctx))
     run_cases(ctx, gen_cases(ctx))
     ctx.exhaustive = False
@@ -763,7 +1098,7 @@ def run(ctx):
                                     ', of 3 calls over 10 call shapes' if ctx.tier == 'thorough' else ''))
     if ctx.tier == 'thorough':
         from vh import core
-        allc = gen_cases(ctx) + token_cases(ctx) + session_cases(ctx)[::7]
+        allc = gen_cases(ctx) + token_cases(ctx) + session_cases(ctx)[::7] + hist_cases(ctx)[::5]
         sample = [model_case(c) for c in allc[::max(1, len(allc) // 250)][:250]]
         a = ctx.model(sample)
         # the clean rebuild of the thorough tier only compiled the cone of Props/C09.v: Dispatch needs every model
